@@ -87,7 +87,7 @@ def run(tier, replay=None):
             pick = pick + deep
             vectors = []
             for i, r in enumerate(pick):
-                variant = {'split': rng.choice([0, 0, 1, 2]), 'imp': rng.choice(['from', 'import', 'star']), 'main': rng.choice(['from', 'import', 'star']),
+                variant = {'split': rng.choice([0, 0, 1, 2]), 'imp': rng.choice(['from', 'import', 'star', 'fromas']), 'main': rng.choice(['from', 'import', 'star', 'fromas']),
                            'names': rng.choice(['plain', 'plain', 'dunder']), 'cond': rng.random() < 0.25}
                 vectors.append([i, r, variant])
         n = core.NCPU
